@@ -402,6 +402,43 @@ def chunkEntries : List Entry :=
 def chunkSched : List Ev :=
   [ .worker 0 false, .worker 1 false, .worker 1 false, .worker 0 false, .worker 0 false, .worker 0 false, .worker 1 false, .main ]
 
+/-! ### Restore mode over several input files (`CmdRestore.Main`)
+
+`Main` puts the input files into a channel; `source.rdb.parallel` routines take files from it, each file goes through
+`dbRestorer.restore` (= `restoreRDBFile`, sections above), whose failure ends the process (`log.PanicErrorf`). Which
+routine gets which file, and in which order, is decided by the scheduler. The model: a *schedule* is any way of dealing
+the files out to the routines — a list of per-routine file lists whose concatenation is a permutation of the inputs; a
+routine works through its list and stops the whole run at its first failing file. Whatever the schedule, the run is
+reported as failed iff some input file fails — no later success of the same routine (or of another one) can hide it. -/
+
+/-- one routine: `true` = it hit a failing file (the process exits there) -/
+def routineFails (files : List Bool) : Bool := files.any id
+
+/-- the run: failed iff some routine hit a failing file -/
+def mainFails (schedule : List (List Bool)) : Bool := schedule.any routineFails
+
+theorem main_reports_any_failure (files : List Bool) (schedule : List (List Bool))
+    (hdeal : schedule.flatten.Perm files) : mainFails schedule = files.any id := by
+  have h1 : ∀ sch : List (List Bool), mainFails sch = sch.flatten.any id := by
+    intro sch
+    unfold mainFails routineFails
+    induction sch with
+    | nil => rfl
+    | cons r rs ih => simp only [List.any_cons, List.flatten_cons, List.any_append, ih]
+  rw [h1 schedule]
+  apply Bool.eq_iff_iff.mpr
+  simp only [List.any_eq_true, id]
+  constructor
+  · rintro ⟨x, hx, hxt⟩; exact ⟨x, hdeal.mem_iff.mp hx, hxt⟩
+  · rintro ⟨x, hx, hxt⟩; exact ⟨x, hdeal.mem_iff.mpr hx, hxt⟩
+
+/-- the variant a seeded change produced: a routine remembers only the outcome of the LAST file it handled. Then a
+    schedule exists under which a failing file goes unreported (one routine: failing file first, a good one after it) -/
+def routineFailsLastOnly (files : List Bool) : Bool := files.getLast?.getD false
+
+theorem counterexample_last_file_only :
+    (List.any [[true, false]] routineFailsLastOnly) = false ∧ [true, false].any id = true := by decide
+
 /-- D12: with two workers and `key_exists = rewrite` the DEL issued for the first chunk of a big hash can wipe a later
     chunk that another worker has already written: the run succeeds, every command was executed exactly once
     (`each_once`), and the hash has lost field 2.  The entries violate `Unchunked`, the worker count is not 1. -/
